@@ -159,6 +159,12 @@ pub fn check_input(ctx: &mut Ctx, b: &[u8], paths: &[Vec<PathEl>]) {
         if object {
             for x in sonic_rs::to_object_iter(&ex[..]).take(50_000) {
                 if let Ok((k, v)) = x {
+                    // what is handed out is UTF-8, and so is everything traversed before it
+                    let raw = v.as_raw_str().as_bytes();
+                    let end = (raw.as_ptr() as usize).wrapping_sub(ex.as_ptr() as usize).wrapping_add(raw.len());
+                    if std::str::from_utf8(raw).is_err() || std::str::from_utf8(k.as_bytes()).is_err() || (end <= b.len() && std::str::from_utf8(&b[..end]).is_err()) {
+                        bad = bad.or(Some(format!("object item {} handed out with bytes that are not UTF-8 in it or before it", i)));
+                    }
                     match m.items.get(i) {
                         Some((mk, s, e)) if mk.as_deref() == Some(k.as_ref()) && &b[*s..*e] == v.as_raw_str().as_bytes() => {}
                         _ => bad = bad.or(Some(format!("object item {} ({:?}: {:?})", i, k, crate::core::truncate(v.as_raw_str(), 80)))),
@@ -169,6 +175,11 @@ pub fn check_input(ctx: &mut Ctx, b: &[u8], paths: &[Vec<PathEl>]) {
         } else {
             for x in sonic_rs::to_array_iter(&ex[..]).take(50_000) {
                 if let Ok(v) = x {
+                    let raw = v.as_raw_str().as_bytes();
+                    let end = (raw.as_ptr() as usize).wrapping_sub(ex.as_ptr() as usize).wrapping_add(raw.len());
+                    if std::str::from_utf8(raw).is_err() || (end <= b.len() && std::str::from_utf8(&b[..end]).is_err()) {
+                        bad = bad.or(Some(format!("array item {} handed out with bytes that are not UTF-8 in it or before it", i)));
+                    }
                     match m.items.get(i) {
                         Some((_, s, e)) if &b[*s..*e] == v.as_raw_str().as_bytes() => {}
                         _ => bad = bad.or(Some(format!("array item {} ({:?})", i, crate::core::truncate(v.as_raw_str(), 80)))),
